@@ -163,6 +163,9 @@ package ldb
 //@   only Get Key Value Next innerKey NewIterator BytesPrefix Release
 //@   dead returns 1
 //@   loop#1 invariant wfBucketTx(b)
+// every committed key that is returned is recorded in the returned-set under its INNER key, the key the pending-writes
+// loop tests, so a key overwritten in this transaction is not returned a second time
+//@   loop#1 step[C11] len(entries) > old(len(entries)) ==> has(set, ggets("rawiterkey", iter))
 //@   at "entry := &db.Entry{ Key: make([]byte, len(key)), Value: make([]byte, len(value)), }"#1 assert[C11] !b.tx.readOnly && isPut(b.tx.b, strOf(iter.Key())) ==> sameSlice(value, b.tx.b.puts[strOf(iter.Key())].data)
 
 //@ func (*levelBucket).Clear
@@ -189,9 +192,12 @@ package ldb
 
 // a failed delete while a bucket is being dropped ends the operation (C18)
 //@ func deleteBucket
-//@   props C18
+//@   props C11 C18
 //@   nopanic off
 //@   modifies *
-//@   only nothing
+//@   only joinBucketPath
+// C11 (isolation of sibling buckets): the entries wiped are those under this bucket's own path followed by the
+// separator -- a sibling whose name merely extends this one's keeps its entries
+//@   at "iter := b.tx.l.ldb.NewIterator(util.BytesPrefix(prefix), nil)" assert[C11] strOf(prefix) == b.path + "_"
 //@   loop#3 skip
 //@   loop#1 invariant[C18] err == nil
